@@ -366,6 +366,7 @@ func compileStruct(typ *runtime.Type, structName, fieldName string, structTypeTo
 						dec:         v.dec,
 						offset:      field.Offset + v.offset,
 						isTaggedKey: v.isTaggedKey,
+						depth:       v.depth + 1,
 						key:         k,
 						keyLen:      int64(len(k)),
 					}
@@ -393,6 +394,7 @@ func compileStruct(typ *runtime.Type, structName, fieldName string, structTypeTo
 							dec:         newAnonymousFieldDecoder(pdec.typ, v.offset, v.dec),
 							offset:      field.Offset,
 							isTaggedKey: v.isTaggedKey,
+							depth:       v.depth + 1,
 							key:         k,
 							keyLen:      int64(len(k)),
 							err:         fieldSetErr,
@@ -458,22 +460,25 @@ func compileStruct(typ *runtime.Type, structName, fieldName string, structTypeTo
 	return structDec, nil
 }
 
+// filterDuplicatedFields applies Go's rules for fields of the same name:
+// the field at the shallowest embedding depth wins; among several at that
+// depth the only tagged one wins; otherwise the name is dropped.
 func filterDuplicatedFields(allFields []*structFieldSet) []*structFieldSet {
 	fieldMap := map[string][]*structFieldSet{}
 	for _, field := range allFields {
 		fieldMap[field.key] = append(fieldMap[field.key], field)
 	}
-	duplicatedFieldMap := map[string]struct{}{}
+	dominant := map[string]*structFieldSet{}
 	for k, sets := range fieldMap {
 		sets = filterFieldSets(sets)
-		if len(sets) != 1 {
-			duplicatedFieldMap[k] = struct{}{}
+		if len(sets) == 1 {
+			dominant[k] = sets[0]
 		}
 	}
 
 	filtered := make([]*structFieldSet, 0, len(allFields))
 	for _, field := range allFields {
-		if _, exists := duplicatedFieldMap[field.key]; exists {
+		if dominant[field.key] != field {
 			continue
 		}
 		filtered = append(filtered, field)
@@ -485,8 +490,23 @@ func filterFieldSets(sets []*structFieldSet) []*structFieldSet {
 	if len(sets) == 1 {
 		return sets
 	}
-	filtered := make([]*structFieldSet, 0, len(sets))
+	minDepth := sets[0].depth
 	for _, set := range sets {
+		if set.depth < minDepth {
+			minDepth = set.depth
+		}
+	}
+	shallowest := make([]*structFieldSet, 0, len(sets))
+	for _, set := range sets {
+		if set.depth == minDepth {
+			shallowest = append(shallowest, set)
+		}
+	}
+	if len(shallowest) == 1 {
+		return shallowest
+	}
+	filtered := make([]*structFieldSet, 0, len(shallowest))
+	for _, set := range shallowest {
 		if set.isTaggedKey {
 			filtered = append(filtered, set)
 		}
